@@ -60,7 +60,10 @@ RULE = (
     "partial product beyond 1e+-308) or with >=1 sliced index, plus the "
     "distinct (network, tree, sliced set, scales, zero mask, sign vector) "
     "cases of the signed/sparse family (sign vectors: all 2^n for n<=3, "
-    "<=1 deviation from all-plus / all-minus for n=4 in the quick tier)"
+    "<=1 deviation from all-plus / all-minus for n=4 in the quick tier), "
+    "of the zero-slice families (one zero slice at scales 0/-100/+100/-30, "
+    "several zero slices in a row) and of the graded-slices family (every "
+    "inner index on >=2 tensors x 3 gradings x all trees)"
 )
 ASSUMPTIONS = ["numpy float64 backend"]
 
